@@ -11,6 +11,8 @@ import (
 	"strings"
 	"time"
 
+	"github.com/jf-tech/omniparser"
+
 	"verifharness/vh"
 )
 
@@ -19,13 +21,14 @@ var watchdog = 5 * time.Second
 func pickInt(r *vh.Rng, xs ...int) int { return xs[r.Pick(len(xs))] }
 
 type corpusCase struct {
-	Name     string `json:"name"`
-	Expect   string `json:"expect"` // "pass": a repaired defect that must stay repaired; "finding": a known finding
-	Note     string `json:"note"`
-	Schema   string `json:"schema"`
-	InputHex string `json:"input_hex"`
-	Defer    bool   `json:"defer"`   // a known hang: run at the end of the run (its worker cannot be stopped)
-	Isolate  bool   `json:"isolate"` // a known fatal runtime error: run in a process of its own
+	Name       string `json:"name"`
+	Expect     string `json:"expect"` // "pass": a repaired defect that must stay repaired; "finding": a known finding
+	Note       string `json:"note"`
+	Schema     string `json:"schema"`
+	InputHex   string `json:"input_hex"`
+	FaultAfter bool   `json:"fault_after"`
+	Defer      bool   `json:"defer"`   // a known hang: run at the end of the run (its worker cannot be stopped)
+	Isolate    bool   `json:"isolate"` // a known fatal runtime error: run in a process of its own
 }
 
 type failReport struct {
@@ -39,13 +42,13 @@ type failReport struct {
 }
 
 type runner struct {
-	o        *vh.Opts
-	r        *vh.Rng
-	sum      *vh.Summary
-	cw       *vh.CaseWriter
-	seenSig  map[string]bool
+	o         *vh.Opts
+	r         *vh.Rng
+	sum       *vh.Summary
+	cw        *vh.CaseWriter
+	seenSig   map[string]bool
 	minimised int
-	noguard  bool
+	noguard   bool
 }
 
 func whatOf(o *Outcome) string {
@@ -89,11 +92,15 @@ func (x *runner) report(c Case, o *Outcome, origin string, muts []string, inKind
 			min = c
 		}
 	}
-	fmt.Printf("FAILURE %s\n  schema: %s\n  input_hex: %s\n", whatOf(rep.Outcome), min.Schema, min.InputHex)
+	fmt.Printf("FAILURE %s\n  schema: %s\n  input_hex: %s\n  fault_after: %v\n", whatOf(rep.Outcome), min.Schema, min.InputHex, min.FaultAfter)
 	for _, f := range rep.Outcome.Stack {
 		fmt.Println("    ", f)
 	}
-	x.sum.Fail(whatOf(rep.Outcome), min, rep)
+	what := whatOf(rep.Outcome)
+	if min.FaultAfter {
+		what += " [input reader failing persistently after the input bytes]"
+	}
+	x.sum.Fail(what, min, rep)
 }
 
 func (x *runner) runCorpus(deferred bool) {
@@ -115,7 +122,7 @@ func (x *runner) runCorpus(deferred bool) {
 		if cc.Defer != deferred {
 			continue
 		}
-		c := Case{Schema: cc.Schema, InputHex: cc.InputHex}
+		c := Case{Schema: cc.Schema, InputHex: cc.InputHex, FaultAfter: cc.FaultAfter}
 		dl := watchdog
 		if cc.Expect == "finding" {
 			dl = 2 * time.Second // a known hang need not cost the full watchdog on every run
@@ -215,10 +222,13 @@ func main() {
 		return
 	}
 	x.runCorpus(false)
+	ts := time.Now()
+	x.sweeps()
+	sum.Extra["sweep_seconds"] = time.Since(ts).Seconds()
 
 	seeds := append(fixtureSeeds(), sampleSeeds()...)
 	sum.Extra["sample_schemas_loaded"] = len(seeds) - 7
-	nSchemas := o.Count(2200, 40000)
+	nSchemas := o.Count(1600, 40000)
 	inputsPer := 3
 	t0 := time.Now()
 	for i := 0; i < nSchemas && hangs < 6; i++ {
@@ -315,6 +325,7 @@ func (x *runner) one(sd *Seed, inputsPer int) {
 	if !mutated && sd.Origin != "generated" {
 		sum.Hist("schema:pristine-accepted")
 	}
+	x.faultRuns(sd, sch, schema, muts, 2)
 	for k := 0; k < inputsPer; k++ {
 		in, kind := genInput(r, sd)
 		sum.Hist("input:" + strings.SplitN(kind, "+", 2)[0])
@@ -336,6 +347,55 @@ func (x *runner) one(sd *Seed, inputsPer int) {
 		}
 		if mutated && damaged && oi.Stage == "Read" {
 			sum.Sample(map[string]interface{}{"schema": string(schema), "mutations": muts, "input_kind": kind, "input_hex": fmt.Sprintf("%x", clip(in)), "outcome": oi})
+		}
+	}
+}
+
+// faultRuns: the same accepted schema over an input reader that fails persistently at chosen
+// positions of a valid-ish input; the transform must still reach a terminal result within the
+// bound (bytes handed out + readSlack Reads), without panic or hang.
+func (x *runner) faultRuns(sd *Seed, sch omniparser.Schema, schema []byte, muts []string, n int) {
+	r, sum := x.r, x.sum
+	if on("csv_rows_small") && !csvRowsSmall(schema) {
+		sum.Hist("guard-skip:csv_rows_small")
+		return
+	}
+	in := sd.Valid(r)
+	if r.Chance(0.2) {
+		in, _ = genInput(r, sd)
+		if len(in) > 3000 {
+			in = in[:3000]
+		}
+	}
+	for _, cut := range faultCuts(r, in, n) {
+		prefix := in[:cut]
+		where := "inside"
+		switch {
+		case cut == 0:
+			where = "at-start"
+		case cut == len(in):
+			where = "at-end"
+		case in[cut-1] == '\n':
+			where = "at-line-boundary"
+		}
+		sum.Hist("input:reader-fault-" + where)
+		oi := ExecInputFault(sch, prefix, watchdog)
+		sum.Count("S:"+string(schema)+"\x00F:"+string(prefix), oi.Stage == "Read")
+		if oi.Fail != "" {
+			c := mkCase(schema, prefix)
+			c.FaultAfter = true
+			x.report(c, oi, sd.Name, muts, "reader-fault-"+where)
+			continue
+		}
+		cls := oi.Terminal
+		if cls == "EOF" {
+			sum.Hist("read-outcome-after-fault:EOF (the fault was swallowed)")
+		} else {
+			sum.Hist("read-outcome-after-fault:" + cls)
+		}
+		if oi.Stage == "Read" {
+			x.cw.Add(fmt.Sprintf("CBound %s %s", vh.CoqN(len(prefix)), vh.CoqN(oi.Reads)),
+				map[string]interface{}{"kind": "bound", "fault_after": true, "schema": string(schema), "input_hex": fmt.Sprintf("%x", clip(prefix)), "reads": oi.Reads, "terminal": oi.Terminal})
 		}
 	}
 }
